@@ -91,6 +91,12 @@ def build(ctx, tier="quick", depth=None):
     q = s.edge(n, sname, Tag("col", False, "tq1"))
     q = s.edge(q, P["."], Tag("col", False))
     s.edge(q, typ, Tag("col", False, "tq2"), O)
+    # a suffix after the size: numeric(10,2)[]  /  decimal(10,2) unsigned - the type is the base with the suffix, the size stays the size
+    sfx_arr = lm.custom("[]", ["[]", "[][]"], "ARRSFX")
+    sfx_word = lm.plain("sfxw", ["unsigned", "varying", "Zerofill", "w_1"])
+    after_size = s.new()
+    s.edge(after_size, sfx_arr, Tag("col", False, "sfx_arr"), O)
+    s.edge(after_size, sfx_word, Tag("col", False, "sfx_word"), O)
     for st in (t1, two):
         z = s.edge(st, P["("], Tag("col", False))
         z1 = s.edge(z, N["NUM"], Tag("col", False, "size1"))
@@ -98,6 +104,9 @@ def build(ctx, tier="quick", depth=None):
         z2 = s.edge(z1, P[","], Tag("col", False))
         z2 = s.edge(z2, N["NUM"], Tag("col", False, "size2"))
         s.edge(z2, P[")"], Tag("col", False), O)
+        if st is t1:
+            s.edge(z1, P[")"], Tag("col", False), after_size)
+            s.edge(z2, P[")"], Tag("col", False), after_size)
         zc = s.edge(z1, chr_, Tag("col", False, "sizeunit"))
         s.edge(zc, P[")"], Tag("col", False), O)
         zm = s.edge(z, mx, Tag("col", False, "sizeword"))
@@ -106,6 +115,8 @@ def build(ctx, tier="quick", depth=None):
         zs = s.edge(zs, P[","], Tag("col", False))
         zs = s.edge(zs, N["NUM"], Tag("col", False, "size2"))
         s.edge(zs, P[")"], Tag("col", False), O)
+        if st is t1:
+            s.edge(zs, P[")"], Tag("col", False), after_size)
     # T-SQL IDENTITY(seed, increment) after the type, in any letter case
     ident = lm.custom("IDENTITY", ["IDENTITY", "identity", "Identity"], "WORD")
     zi = s.edge(t1, ident, Tag("col", False, "ident"))
@@ -215,6 +226,10 @@ class TypesOracle(DeltaOracle):
             typ = lift(lambda a, b: f"{a} {b}", roles["tw1"], roles["tw2"])
         else:
             typ = roles["tw1"]
+        if "sfx_arr" in roles:
+            typ = lift(lambda a, b: f"{a}{b}", typ, roles["sfx_arr"])
+        if "sfx_word" in roles:
+            typ = lift(lambda a, b: f"{a} {b}", typ, roles["sfx_word"])
         out = {"name": roles["name"], "type": typ, "size": size, "references": None, "unique": False,
                "primary_key": False, "nullable": True, "default": None, "check": None}
         if "ident" in roles:
